@@ -296,15 +296,30 @@ def c04h(ctx, tu, rule="C04.h"):
         if not ok and st == "user" and mv.get("fn") in tu.fns and tu.fns[mv["fn"]].has_body:
             f = tu.fns[mv["fn"]]
             moved = set()
+            crossed = []
+
+            def src_fields(tree):
+                # members of the moved-from holder (the parameter) that the source expression reads
+                return set(erase(t[1]).rsplit("::", 1)[-1] for t in lib.subtrees(tree)
+                           if isinstance(t, list) and t[:1] == ["member"] and isinstance(t[2], list) and t[2][:1] == ["param"])
             for b, e in f.events():
+                dst = src = None
                 if e["e"] == "init" and "field" in e and "param" in str(e.get("x")):
-                    moved.add(erase(e["field"]).rsplit("::", 1)[-1])
+                    dst, src = erase(e["field"]).rsplit("::", 1)[-1], src_fields(e.get("x"))
                 if e["e"] == "call" and e.get("op") == "=" and "param" in str(e.get("args")):
                     r = lib.strip_casts(e.get("recv"))
                     if isinstance(r, list) and r[:1] == ["member"]:
-                        moved.add(erase(r[1]).rsplit("::", 1)[-1])
-            ok = {"active", "saturated"} <= moved
+                        dst, src = erase(r[1]).rsplit("::", 1)[-1], src_fields(e.get("args"))
+                if dst is not None:
+                    if src and dst not in src:
+                        crossed.append((dst, sorted(src)))     # filled from ANOTHER list of the source
+                    else:
+                        moved.add(dst)
+            ok = {"active", "saturated"} <= moved and not crossed
             why = "the move constructor of a movable mock's expectation holder moves only %s" % sorted(moved)
+            if crossed:
+                why = "the move constructor of a movable mock's expectation holder fills `%s` from the source's %s" % (
+                    crossed[0][0], crossed[0][1])
         elif not ok:
             why = "the move constructor of a movable mock's expectation holder is %s" % st
         ctx.ob(rule, "trompeloeil::expectations<true> move constructor", ok, pattern=short_loc(c.get("loc", "")),
@@ -339,6 +354,9 @@ def run(ctx):
         # fatal report must not have been counted
         protocol.report(ctx, tu, lambda r: True)   # the whole step protocol is a premise of this property
         c04h(ctx, tu)
+        from rules import C03 as _C03
+        if tu.find(A["set_limits"]):
+            _C03.c03b(ctx, tu)     # "below its lower bound" is read off the limits every spelling of TIMES / RT_TIMES sets
         units.append({"unit": tu.name, "functions": len(tu.fns)})
     # "an ALLOW or FORBID expectation never reports at end of life" rests on what those spellings are: REQUIRE_CALL with
     # lower bound 0, in every macro family (token-equality of the expansions, C03.c / C07.a)
